@@ -90,14 +90,18 @@ impl FeelZone {
               let mut offset = 3600 * hours + 60 * minutes;
               if let Some(seconds_match) = captures.name("offSeconds") {
                 if let Ok(seconds) = seconds_match.as_str().parse::<i32>() {
+                  if seconds > 59 {
+                    // seconds of the offset are limited to at most 59
+                    return None;
+                  }
                   offset += seconds;
                 }
               }
               if sign_match.as_str() == "-" {
                 offset = -offset;
               }
-              if hours > 14 {
-                // the hour magnitude is limited to at most 14
+              if hours > 14 || minutes > 59 {
+                // the hour magnitude is limited to at most 14, minutes to at most 59
                 return None;
               }
               return Some(FeelZone::new(offset));
